@@ -4,6 +4,36 @@ use serde::ser::*;
 use std::{collections::HashMap, sync::Mutex};
 
 /// serde wants `&'static str` names; leak each distinct name once.
+thread_local! {
+	/// Field names the schema of the current case knows: a struct presentation that omits one of
+	/// them says so through `SerializeStruct::skip_field` (what `#[serde(skip_serializing_if)]`
+	/// does), at a position derived from the name - serde's default for it is a no-op, so this
+	/// changes nothing unless the serializer under test gives it a meaning
+	pub static SKIP_NAMES: std::cell::RefCell<Vec<String>> = const { std::cell::RefCell::new(Vec::new()) };
+}
+pub fn set_skip_names(schema: &crate::proto::RawSchema) {
+	let mut names = vec![];
+	for n in schema {
+		if let crate::proto::Reg::Record(_, fs) = &n.reg {
+			for (f, _) in fs {
+				if !names.contains(f) {
+					names.push(f.clone());
+				}
+			}
+		}
+	}
+	SKIP_NAMES.with(|s| *s.borrow_mut() = names);
+}
+fn skips_for(fs: &[(String, SV)]) -> Vec<(&'static str, usize)> {
+	SKIP_NAMES.with(|s| {
+		s.borrow()
+			.iter()
+			.filter(|n| !fs.iter().any(|(k, _)| k == *n))
+			.map(|n| (leak(n), n.bytes().map(|b| b as usize).sum::<usize>() % (fs.len() + 1)))
+			.collect()
+	})
+}
+
 pub fn leak(s: &str) -> &'static str {
 	static CACHE: Mutex<Option<HashMap<String, &'static str>>> = Mutex::new(None);
 	let mut g = CACHE.lock().unwrap();
@@ -95,15 +125,37 @@ impl Serialize for SV {
 			}
 			SV::Struct(n, fs) => {
 				let mut q = s.serialize_struct(leak(n), fs.len())?;
-				for (k, v) in fs {
+				let skips = skips_for(fs);
+				for (idx, (k, v)) in fs.iter().enumerate() {
+					for (sk, at) in &skips {
+						if *at == idx {
+							q.skip_field(sk)?;
+						}
+					}
 					q.serialize_field(leak(k), v)?;
+				}
+				for (sk, at) in &skips {
+					if *at == fs.len() {
+						q.skip_field(sk)?;
+					}
 				}
 				q.end()
 			}
 			SV::StructVariant(n, i, var, fs) => {
 				let mut q = s.serialize_struct_variant(leak(n), *i, leak(var), fs.len())?;
-				for (k, v) in fs {
+				let skips = skips_for(fs);
+				for (idx, (k, v)) in fs.iter().enumerate() {
+					for (sk, at) in &skips {
+						if *at == idx {
+							q.skip_field(sk)?;
+						}
+					}
 					q.serialize_field(leak(k), v)?;
+				}
+				for (sk, at) in &skips {
+					if *at == fs.len() {
+						q.skip_field(sk)?;
+					}
 				}
 				q.end()
 			}
